@@ -43,6 +43,18 @@ def ser(v):
         return {'t': 'omitted'}
     if isinstance(v, float):
         return {'t': 'float', 'r': repr(v)}
+    if isinstance(v, api.ProdSpec):
+        return {'t': 'prod', 'names': v.names, 'vals': [ser(x) for x in v.vals]}
+    if isinstance(v, api.HostFnSpec) or isinstance(v, api.Recorder):
+        return {'t': 'hostfn'}
+    if isinstance(v, api.ObjSpec):
+        return {'t': 'pyobj', 'cls': v.cls, 'attrs': {k: ser(x) for k, x in v.attrs.items()}}
+    if isinstance(v, dict) and '__prod__' in v:
+        return {'t': 'prod', 'names': v['__prod__'], 'vals': [ser(x) for x in v['vals']]}
+    if isinstance(v, dict) and '__hostfn__' in v:
+        return {'t': 'hostfn'}
+    if isinstance(v, dict) and '__class__' in v:
+        return {'t': 'pyobj', 'cls': v['__class__'], 'attrs': {k: ser(x) for k, x in v['attrs'].items()}}
     if isinstance(v, Err):
         return {'t': 'err', 'code': v.code}
     if isinstance(v, ForeignErr):
@@ -76,6 +88,12 @@ def deser(j):
         return float(j['r'])
     if t == 'omitted':
         return api.OMITTED
+    if t == 'prod':
+        return api.ProdSpec(j['names'], [deser(x) for x in j['vals']])
+    if t == 'hostfn':
+        return api.HostFnSpec()
+    if t == 'pyobj':
+        return api.ObjSpec(j['cls'], {k: deser(x) for k, x in j['attrs'].items()})
     if t == 'err':
         return api.REAL['errors'][j['code']]
     if t == 'ferr':
@@ -94,7 +112,8 @@ def deser(j):
 # ------------------------------------------------------------------------------------------ worker
 
 def _verify_one(task):
-    name, opts = task
+    name, opts = task[0], task[1]
+    only_case = task[2] if len(task) > 2 else None
     from . import verify, native
     w = _W['world']
     c = _W['contracts'][name]
@@ -112,7 +131,7 @@ def _verify_one(task):
             except Exception:
                 pass
         else:
-            res = verify.verify_contract(w, c, timeout_ms=opts['timeout_ms'])
+            res = verify.verify_contract(w, c, timeout_ms=opts['timeout_ms'], only_case=only_case)
         out['symbolic'] = res.to_json()
         # native: replay of counterexamples, bounded search, cross-check
         nc = native.NativeContract(c)
@@ -120,25 +139,31 @@ def _verify_one(task):
         replays = []
         for ob in res.obligations:
             if ob['result'] == 'failed' and '_inputs' in ob:
-                vals = [native.to_real(v) for _, v in ob['_inputs']]
+                vals = [v for _, v in ob['_inputs']]
                 try:
                     app, ok, detail = nc.check(vals)
                 except Exception as ex:
                     app, ok, detail = False, True, 'replay raised %r' % (ex,)
                 replays.append({'obligation': ob['name'], 'applicable': app, 'confirmed': bool(app and not ok),
                                 'inputs': [[n, ser(v)] for (n, _), v in zip(ob['_inputs'], vals)],
-                                'inputs_repr': [[n, repr(v)] for (n, _), v in zip(ob['_inputs'], vals)],
+                                'inputs_repr': [[n, repr(native.to_real(v)) if not isinstance(v, dict) else repr(v)] for (n, _), v in zip(ob['_inputs'], vals)],
                                 'detail': detail})
         for ob in out['symbolic']['obligations']:
             ob.pop('_inputs', None)
         out['replays'] = replays
         limit = opts['bounded_limit']
         deadline = time.time() + opts['bounded_budget_s']
-        cases, applicable, fails = nc.bounded_search(rng, limit, deadline)
+        if only_case not in (None, 0):
+            cases, applicable, fails = 0, 0, []      # the native run covers all cases once (in the case-0 task)
+        else:
+            cases, applicable, fails = nc.bounded_search(rng, limit, deadline)
         out['bounded'] = {'cases': cases, 'applicable': applicable,
                           'failures': [{'inputs': [[n, ser(v)] for n, v in zip(nc.names, f['_vals'])],
                                         'inputs_repr': f['inputs'], 'detail': f['detail']} for f in fails]}
-        out['crosscheck'] = crosscheck(w, c, nc, rng, opts.get('crosscheck_n', 40)) if not c.is_lemma else {'cases': 0, 'compared': 0, 'mismatches': []}
+        if c.is_lemma or only_case not in (None, 0):
+            out['crosscheck'] = {'cases': 0, 'compared': 0, 'mismatches': []}
+        else:
+            out['crosscheck'] = crosscheck(w, c, nc, rng, opts.get('crosscheck_n', 40))
     except Exception as ex:
         out['error'] = '%s: %s\n%s' % (type(ex).__name__, ex, traceback.format_exc())
     out['wall_s'] = round(time.time() - t0, 3)
@@ -254,6 +279,7 @@ class Report(object):
         self.trusted = set()
         self.t0 = time.time()
         self.extra = {}
+        self.case_counts = {}
 
     def add_record(self, name, kind, result, backend, **kw):
         r = {'name': name, 'kind': kind, 'result': result, 'backend': backend}
@@ -312,17 +338,60 @@ def finding_matches(finding, prop, contract, inputs_named):
 
 def run_contracts(report, scratch, names, opts, jobs):
     """ verify the named contracts in a pool and triage """
-    tasks = [(n, opts) for n in names]
+    tasks = []
+    for n in names:
+        ncases = report.case_counts.get(n, 1)
+        if ncases > 1:
+            tasks.extend((n, opts, i) for i in range(ncases))
+        else:
+            tasks.append((n, opts))
     if not tasks:
         return []
     ctxm = multiprocessing.get_context('fork')
     with ctxm.Pool(min(jobs, len(tasks)), initializer=_worker_init, initargs=(scratch, REPO)) as pool:
-        results = pool.map(_verify_one, tasks, chunksize=1)
+        parts = pool.map(_verify_one, tasks, chunksize=1)
+    results = merge_case_results(parts)
     known = load_known_findings()
     baseline = load_baseline()
     for r in results:
         triage(report, r, known, baseline)
     return results
+
+
+def merge_case_results(parts):
+    """ results of the per-case tasks of one contract are merged back into one record """
+    out = []
+    by = {}
+    for p in parts:
+        k = p['contract']
+        if k not in by:
+            by[k] = p
+            out.append(p)
+            continue
+        a = by[k]
+        if 'error' in p:
+            a['error'] = p['error']
+            continue
+        if 'error' in a:
+            continue
+        sa, sp = a['symbolic'], p['symbolic']
+        sa['obligations'].extend(sp['obligations'])
+        for key in ('paths', 'post_prunes', 'unreached_paths'):
+            sa[key] = sa.get(key, 0) + sp.get(key, 0)
+        sa['solver_s'] = sa.get('solver_s', 0) + sp.get('solver_s', 0)
+        sa['flags'] = sorted(set(sa.get('flags', [])) | set(sp.get('flags', [])))
+        sa['unreached_reasons'] = sorted(set(sa.get('unreached_reasons', [])) | set(sp.get('unreached_reasons', [])))[:8]
+        order = {'ok': 0, 'partial': 1, 'out_of_reach': 2, 'error': 3}
+        if sa['status'] != sp['status']:
+            if 'error' in (sa['status'], sp['status']):
+                sa['status'] = 'error'
+                sa['reason'] = sp['reason'] if sp['status'] == 'error' else sa['reason']
+            else:
+                sa['status'] = 'partial'
+                sa['reason'] = '; '.join(x for x in (sa.get('reason'), sp.get('reason')) if x)
+        a['replays'].extend(p.get('replays', []))
+        a['wall_s'] = max(a['wall_s'], p['wall_s'])
+    return out
 
 
 def triage(report, r, known, baseline):
